@@ -138,11 +138,13 @@ def gen(rng, tier):
         cases += gen_exhaustive_accept("exa-") + gen_exhaustive_finalsize("exf-")[::3]
         cases += [sc.gen_case(rng, "r%d" % i) for i in range(3500)]
         cases += [sc.gen_case(rng, "h%d" % i, hostile=0.7, nops=rng.randint(3, 10)) for i in range(1500)]
+        cases += sc.directed_cases(rng, 600)
     else:
         cases += gen_exhaustive_accept("exa-") + gen_exhaustive_finalsize("exf-")
         cases += [sc.gen_case(rng, "r%d" % i) for i in range(60000)]
         cases += [sc.gen_case(rng, "h%d" % i, hostile=0.7, nops=rng.randint(3, 12)) for i in range(30000)]
         cases += [sc.gen_case(rng, "L%d" % i, nops=rng.randint(30, 80)) for i in range(5000)]
+        cases += sc.directed_cases(rng, 10000)
     return cases
 
 
